@@ -18,13 +18,18 @@ EXTENDS Node, Json, IOUtils, SequencesExt
 Nodes    == ndJsonDeserialize(IOEnv.ND_NODES)
 Alphabet == JsonDeserialize(IOEnv.ND_ALPHABET)
 Handler  == "ND_LEVEL" \in DOMAIN IOEnv /\ IOEnv.ND_LEVEL = "handler"
+FeeLimit == IF "ND_FEE_LIMIT" \in DOMAIN IOEnv
+            THEN CHOOSE n \in 0..16 : ToString(n) = IOEnv.ND_FEE_LIMIT ELSE 0
 K == [atomicAllowlist |-> IOEnv.ND_ATOMIC_ALLOWLIST = "true",
+      feeLimit |-> FeeLimit,
+      withdrawCountsBeforeSign |-> IF "ND_COUNTS_BEFORE_SIGN" \in DOMAIN IOEnv
+                                   THEN IOEnv.ND_COUNTS_BEFORE_SIGN = "true" ELSE TRUE,
       approve |-> IF "ND_APPROVE" \in DOMAIN IOEnv THEN IOEnv.ND_APPROVE = "true" ELSE TRUE]
 StepOf(s, r) == IF Handler THEN HStep(s, r, K) ELSE Step(s, r, K)
 
 \* JSON arrays arrive as sequences: turn them into the sets Node.tla uses
 
-Abs(p) == [allow |-> ToSet(p.allow), inv |-> ToSet(p.inv), mark |-> p.mark, chans |-> ToSet(p.chans)]
+Abs(p) == [allow |-> ToSet(p.allow), inv |-> ToSet(p.inv), mark |-> p.mark, chans |-> ToSet(p.chans), fee |-> p.fee]
 RespOf(e) == [ok |-> e[3] = 1, flag |-> e[4]]
 
 VARIABLES node, g, last
